@@ -1,0 +1,64 @@
+// SPDX-FileCopyrightText: 2026 The Pion community <https://pion.ly>
+// SPDX-License-Identifier: MIT
+
+//go:build verif
+
+package dtls
+
+import (
+	"net"
+
+	dtlsconfig "github.com/pion/dtls/v3/internal/config"
+	dtlsflight "github.com/pion/dtls/v3/internal/flight"
+	dtlsfragmentbuffer "github.com/pion/dtls/v3/internal/fragmentbuffer"
+	dtlsstate "github.com/pion/dtls/v3/internal/state"
+	"github.com/pion/dtls/v3/pkg/protocol/handshake"
+)
+
+// VerifInternals exposes private connection state to the verification harness (build tag verif).
+type VerifInternals struct {
+	State           dtlsstate.Active
+	FragmentBuffer  *dtlsfragmentbuffer.FragmentBuffer
+	HandshakeCache  *dtlsflight.Cache
+	HandshakeConfig *dtlsconfig.HandshakeConfig
+	QueuedEncrypted int
+	PendingACKs     int
+	RAddr           net.Addr
+	Closed          bool
+	Established     bool
+}
+
+func verifInternals(c *Conn) VerifInternals {
+	return VerifInternals{
+		State:           c.state,
+		FragmentBuffer:  c.fragmentBuffer,
+		HandshakeCache:  c.handshakeCache,
+		HandshakeConfig: c.handshakeConfig,
+		QueuedEncrypted: len(c.encryptedPackets),
+		PendingACKs:     len(c.pendingACKs),
+		RAddr:           c.rAddr,
+		Closed:          c.isConnectionClosed(),
+		Established:     c.isHandshakeCompletedSuccessfully(),
+	}
+}
+
+// VerifPeek calls fn with the connection's private state while holding the state lock for reading.
+func VerifPeek(c *Conn, fn func(VerifInternals)) {
+	c.lock.RLock()
+	defer c.lock.RUnlock()
+	fn(verifInternals(c))
+}
+
+// VerifPoke calls fn with the connection's private state while holding the state lock for writing.
+func VerifPoke(c *Conn, fn func(VerifInternals)) {
+	c.lock.Lock()
+	defer c.lock.Unlock()
+	fn(verifInternals(c))
+}
+
+// VerifFragmentHandshake runs the sender-side handshake fragmentation for the given MTU.
+func VerifFragmentHandshake(mtu int, h *handshake.Handshake) ([][]byte, error) {
+	c := &Conn{maximumTransmissionUnit: mtu}
+
+	return c.fragmentHandshake(h)
+}
